@@ -66,7 +66,11 @@ def infer_redirection(url, recursive=True):
 
             # Basic relative url
             elif potential_target.startswith("/"):
-                target = urljoin(url, potential_target)
+                # NOTE: the url might not be parseable
+                try:
+                    target = urljoin(url, potential_target)
+                except ValueError:
+                    target = None
 
             # Idiotic youtube redirections
             elif "youtube.com/redirect?" in url:
